@@ -17,6 +17,9 @@ PatOK(p) == LET o == p.obs IN
             \* (absolute / repeated slashes kept); exp2: the other reading of a trailing backslash (equal to exp otherwise)
             /\ \/ ToSet(o.res) = ToSet(p.exp) /\ ToSet(o.strs) = ToSet(p.expstr)
                \/ ToSet(o.res) = ToSet(p.exp2) /\ ToSet(o.strs) = ToSet(p.expstr2)
+            \* the same pattern as a word through ExecEnv.Expand: the matches in order, or the word itself when nothing matches
+            \* (relative single-slash forms; skipped when "." / ".." are among the fields)
+            /\ (p.abs \/ p.rep = 2 \/ o.xdots > 0) \/ (o.xerr = "" /\ o.xsorted /\ (ToSet(o.xw) = ToSet(p.expw) \/ ToSet(o.xw) = ToSet(p.expw2)))
             /\ o.sorted /\ o.nodup /\ o.lstat /\ o.slashok
 
 Chk == \A i \in 1..Len(Recs[k].pats) : PatOK(Recs[k].pats[i]) \/ PrintT(<<"MISMATCH", k, i>>)
